@@ -189,7 +189,9 @@ CLAIMS = {
     "C14": dict(
         category="proof",
         text="The numeric kernels of the closed-form transformers are verified against their defining formula for all sizes: "
-             "PaddingTransformer._create_pad (series then fill value up to the pad length), SlidingWindowSegmenter.transform (window t = "
+             "PaddingTransformer.fit / transform / _create_pad and TruncationTransformer.transform on panels of UNEQUAL-length series (every "
+             "cell has its own symbolic length: own values then fill value up to the requested or longest length; first k / requested "
+             "range of every cell; one row per instance in input order), SlidingWindowSegmenter.transform (window t = "
              "the w observations centred at t with edge values repeated; includes memory safety of the as_strided view; three loop "
              "invariants + event schemas for the table assembly), IntervalSegmenter.fit/transform (equal consecutive intervals covering "
              "the series; block k = fitted interval k of every instance), PAA._perform_paa_along_dim (exactly num_intervals means per "
@@ -197,10 +199,11 @@ CLAIMS = {
              "from_3d_numpy_to_2d_array (column-then-time order), "
              "SeriesToPrimitives/SeriesToSeriesRowTransformer.transform (row i = wrapped transformer applied to instance i, fresh clone), "
              "TabularToSeriesAdaptor.transform/inverse_transform (series as one column, index kept).",
-        note="NOT proved, bounded tier only (21k cases quick, real transformers vs plain-python formulas): truncation, interpolation, "
+        note="NOT proved, bounded tier only (22k cases quick, real transformers vs plain-python formulas): interpolation, "
              "column concatenation, random-interval feature extraction, slope, imputation rules, cosine, "
              "autocorrelation -- their code is pandas nested-DataFrame plumbing or floating point; assumed contracts: "
-             "_concat_nested_arrays, _get_column_names, from_2d_array_to_nested, from_nested_to_2d_array; 1..3 fitted intervals; PAA: "
+             "_concat_nested_arrays, _get_column_names, from_2d_array_to_nested, from_nested_to_2d_array, check_X on a nested frame, "
+             "_get_max_length / get_min_length (nested max / min over map objects); 1..3 fitted intervals; PAA: "
              "floating-point rounding (the 'last frame lost' branch) not decided",
         technique="contract-based deductive verification: AST->VC generation (pyvc) + z3; loop invariants over 2-d/3-d arrays, event schemas",
         design="6/C14"),
